@@ -200,7 +200,11 @@ func (g *condGen) handlerBind(d int) *Node {
 
 // H generates a handler expression.
 func (g *condGen) H(d int) *Node {
-	switch g.r.Pick([]int{10, 2, 2, 2, 1, 1, 2}) {
+	switch g.r.Pick([]int{10, 2, 2, 2, 1, 1, 2, 2}) {
+	case 7:
+		// a handler given by a name that is bound to nothing: an error, but
+		// only if and when its binding is selected
+		return A("hh-nope")
 	case 6:
 		// a handler expression that does something before yielding the handler
 		return Call("progn", g.F(d-1), A("hh"))
@@ -262,7 +266,13 @@ func (condEngine) Gen(r *Rand, tier string) any {
 		na := r.Pick([]int{2, 5, 3, 2})
 		for i := 0; i < na; i++ {
 			f := FaultSpec{FP: r.Range(1, g.fpN), Hit: r.Pick([]int{0, 8, 2, 1})}
-			switch r.Pick([]int{5, 5, 1}) {
+			switch r.Pick([]int{5, 5, 1, 1}) {
+			case 3:
+				// a defective host builtin returns an error value with a Go
+				// nil among its data cells: outside the reference model (the
+				// comparison is skipped when it fires), but whatever happens,
+				// no condition may be left behind for a later rethrow
+				f.Kind = "baddata"
 			case 0:
 				f.Kind = "error"
 				f.Cond = PickStr(r, condAlphabet)
@@ -931,6 +941,8 @@ func lambdaValid(h *Node) bool {
 	return true
 }
 
+var rethrowPristine string
+
 func (condEngine) Run(ci any, st *Stats) *Violation {
 	c := ci.(*CondCase)
 	for _, f := range c.Forms {
@@ -979,6 +991,29 @@ func (condEngine) Run(ci any, st *Stats) *Violation {
 
 	if out.GoPanic != "" {
 		return Violf("go-panic-escaped", "%s", out.GoPanic)
+	}
+	// rethrow is an error anywhere but inside a handler: after the evaluation
+	// returned no handler is running, whatever happened during it
+	if cnd := w.RT.CurrentCondition(); cnd != nil {
+		return Violf("rethrow-outside-handler", "after the evaluation returned a condition is still offered to rethrow: %s", cnd.Str)
+	}
+	w.Faults = nil
+	const rethrowProbe = "(handler-bind ((condition (lambda (c &rest d) (list 'handled c d)))) (rethrow))"
+	if rethrowPristine == "" {
+		pw, err := NewWorld(Knobs{})
+		if err != nil {
+			return Violf("harness", "%v", err)
+		}
+		rethrowPristine = pw.LoadString(rethrowProbe).Result()
+	}
+	if o := w.LoadString(rethrowProbe); o.Result() != rethrowPristine {
+		return Violf("rethrow-outside-handler", "(rethrow) evaluated outside any handler after the case gave %s; in a pristine runtime it gives %s", o.Result(), rethrowPristine)
+	}
+	for _, f := range w.Fired {
+		if f == "baddata" {
+			st.Inc("reach_malformed_host_error_outside_model")
+			return nil
+		}
 	}
 	// probe trace
 	var realTrace []string
